@@ -48,6 +48,32 @@ def run_script(root, text, argv=(), env=None, timeout=DEADLINE, rash_args=(), ra
     return dict(rc=rc, kind=classify(rc, se), stderr=se[-300:], secs=round(time.time() - t0, 2))
 
 
+def run_script_stdout(root, text, sink, rash_args=(), timeout=DEADLINE):
+    """like run_script, with standard output redirected to a device that is full or a pipe whose reader is gone"""
+    shutil.rmtree(root, ignore_errors=True)
+    os.makedirs(os.path.join(root, "out"))
+    p = os.path.join(root, "s.rh")
+    with open(p, "wb") as fh:
+        fh.write(text.replace("ROOT", root).encode("utf-8", "surrogateescape"))
+    open(os.path.join(root, "out", "f"), "w").write("old\n")
+    t0 = time.time()
+    try:
+        if sink == "/dev/full":
+            with open("/dev/full", "w") as out:
+                pr = subprocess.run([C.RASH] + list(rash_args) + [p], stdout=out, stderr=subprocess.PIPE, timeout=timeout, cwd=root, start_new_session=True)
+        else:
+            r, w = os.pipe()
+            os.close(r)
+            try:
+                pr = subprocess.run([C.RASH] + list(rash_args) + [p], stdout=w, stderr=subprocess.PIPE, timeout=timeout, cwd=root, start_new_session=True)
+            finally:
+                os.close(w)
+        rc, se = pr.returncode, pr.stderr.decode("utf-8", "replace")
+    except subprocess.TimeoutExpired:
+        rc, se = "timeout", ""
+    return dict(rc=rc, kind=classify(rc, se), stderr=se[-300:], secs=round(time.time() - t0, 2))
+
+
 def parallel(fn, items):
     res = [None] * len(items)
     parts = C.shard(list(enumerate(items)), C.NPROC)
@@ -273,8 +299,15 @@ def c13(run, replay=None):
     for ra in (["--diff"], ["--check"], ["-vv"], ["--check", "--diff", "-v"]):
         items.append(("default-output", dict(text=shown, argv=[], rash_args=ra, raw=False)))
 
+    # standard output that cannot be written to (K40): a full device, a closed pipe - with and without --diff
+    for ra in ([], ["--diff"], ["--diff", "--check"], ["-vv"]):
+        for sink in ("/dev/full", "closed-pipe"):
+            items.append(("broken-stdout", dict(text=shown.replace("content: x", "content: \"line1\\nline2\\n\""), argv=[], rash_args=ra, raw=False, stdout=sink)))
+
     def runit(root, it):
         kind, c = it
+        if c.get("stdout"):
+            return run_script_stdout(root, c["text"], c["stdout"], rash_args=c.get("rash_args", ()))
         return run_script(root, c["text"], c.get("argv", ()), c.get("env"), rash_args=c.get("rash_args", ()), raw=c.get("raw", True))
     outs = parallel(runit, items)
     nontrivial = set()
